@@ -474,3 +474,86 @@ pub fn c06_cap_assign_notifies() {
     kani::cover!(true, "end");
     std::mem::forget(s);
 }
+
+// ---------------------------------------------------------------------------
+// pop_frame: the only producer of outbound DATA (C01.split, C02.emit, C02.neg)
+// ---------------------------------------------------------------------------
+pub(crate) fn stub_clear_queue_unreachable<B>(_p: &mut Prioritize, _b: &mut Buffer<Frame<B>>, _s: &mut store::Ptr) {
+    panic!("UNREACHABLE-STUB Prioritize::clear_queue")
+}
+pub(crate) fn stub_reclaim_all_unreachable(_p: &mut Prioritize, _s: &mut store::Ptr, _c: &mut Counts) {
+    panic!("UNREACHABLE-STUB Prioritize::reclaim_all_capacity")
+}
+
+/// One queued DATA frame of symbolic size on an open stream; every window symbolic
+/// (including zero and negative stream windows after a SETTINGS shrink).
+fn pop_frame_one_data(eos: bool) {
+    // eos => the send half was closed when the frame was queued (HalfClosedLocal)
+    let mut w = world(if eos { 4 } else { 3 });
+    {
+        let mut p = w.store.resolve(w.key);
+        if !eos {
+            st_h::set_inner_open_streaming(&mut p.state);
+        }
+    }
+    let sz: usize = kani::any();
+    kani::assume(sz as u64 <= MAXW as u64);
+    let off: usize = kani::any();
+    kani::assume(off <= (1usize << 40));
+    {
+        let mut p = w.store.resolve(w.key);
+        let mut frame = frame::Data::new(StreamId::from(ID), SymBuf { off, rem: sz });
+        frame.set_end_stream(eos);
+        p.pending_send.push_back(&mut w.buffer, frame.into());
+        push_pending_send(&mut w.prio, &mut p);
+    }
+    let pre = sym_pre(&mut w, Some(sz));
+    let max_len: usize = kani::any();
+    kani::assume(max_len >= 16_384 && max_len < (1 << 24));
+    let out = w.prio.pop_frame(&mut w.buffer, &mut w.store, max_len, &mut w.counts);
+    let q = post(&mut w);
+    match &out {
+        Some(Frame::Data(d)) => {
+            let n = d.payload().remaining();
+            let inner = d.payload().inner.get_ref();
+            // C02.emit: never more than either window allows; zero-length only for an empty frame
+            assert!(n as i64 <= if pre.w > 0 { pre.w as i64 } else { 0 }, "C02: DATA exceeds the stream window");
+            assert!(n as i64 <= pre.cw as i64, "C02: DATA exceeds the connection window");
+            assert!(n as i64 <= pre.a as i64, "DATA exceeds the capacity assigned to the stream");
+            assert!(n <= max_len, "C12.max: DATA exceeds the peer's MAX_FRAME_SIZE");
+            assert!(n > 0 || sz == 0, "C02.neg: zero-length DATA emitted for a non-empty frame");
+            // exact amount
+            let mut want = if sz < max_len { sz } else { max_len };
+            if want as i64 > pre.a as i64 { want = pre.a as usize; }
+            assert!(n == want, "C01.split: emitted length != min(size, max_frame, available)");
+            // C01.split: the piece covers [off, off+n); the whole remainder is handed to the codec
+            assert!(inner.off == off && inner.rem == sz, "C01.split: piece does not start where the frame starts");
+            assert!(d.payload().end_of_stream == eos, "C01.split: END_STREAM intent lost");
+            // END_STREAM on the wire only on the byte-final piece
+            assert!(d.is_end_stream() == (eos && n == sz), "C01.split: END_STREAM flag on a non-final piece (or missing on the final one)");
+            // ledgers
+            assert!(q.w as i64 == pre.w as i64 - n as i64, "stream window not charged exactly n");
+            assert!(q.cw as i64 == pre.cw as i64 - n as i64, "connection window not charged exactly n");
+            assert!(q.a as i64 == pre.a as i64 - n as i64 && q.ca == pre.ca);
+            assert!(q.buffered == sz - n && q.req == pre.req - n as u32, "S3: buffered/requested not reduced by n");
+            assert_inv(&pre, &q);
+            assert!(!in_flight_is_drop(&w.prio));
+        }
+        Some(_) => panic!("pop_frame produced a frame kind that was never queued"),
+        None => {
+            // nothing may be emitted only if the frame is non-empty and unsendable
+            assert!(sz > 0 && (pre.a == 0 || pre.w <= 0 || (pre.a as i64) > pre.w as i64), "sendable DATA not emitted");
+            assert!(q.w == pre.w && q.cw == pre.cw && q.a == pre.a && q.buffered == pre.buffered, "state changed without emitting");
+            let p = w.store.resolve(w.key);
+            assert!(!p.pending_send.is_empty(), "blocked DATA frame lost");
+        }
+    }
+    kani::cover!(matches!(&out, Some(Frame::Data(d)) if d.payload().remaining() < sz), "split");
+    kani::cover!(matches!(&out, Some(Frame::Data(d)) if d.payload().remaining() == sz && sz > 0), "whole");
+    kani::cover!(out.is_none(), "blocked");
+    kani::cover!(true, "end");
+    std::mem::forget(out);
+    forget(w);
+}
+pub fn c02_emit_pop_frame_data() { pop_frame_one_data(false) }
+pub fn c02_emit_pop_frame_data_eos() { pop_frame_one_data(true) }
